@@ -236,6 +236,9 @@ def jobs(tier):
     js += [(unit_o2e, ("frame", "Command")), (unit_o2e, ("frame", "Response"))]
     # events -> object: trie insertion by the step rule, conversion one level per concrete type
     js += [(unit_e2d_steps, ()), (unit_to_obj_dispatch, ()), (unit_d2o_partial, ()), (unit_canonical, ())]
+    # the facade decodes through the front-ends (Auto by default): they must hand the decoder's object on
+    from checks import c15
+    js += [(c15.unit_wrapper, (w, "opaque")) for w in ("hex", "swtpm", "pcapng")] + [(c15.unit_auto_dispatch, ())]
     # decoder and events->object both synthesize the encrypted parameter class: they agree only through the memo (C12/MEMO)
     from checks import c12
     js += [(c12.unit_memo, ())]
@@ -254,6 +257,8 @@ def jobs(tier):
 
 
 def keep(name, ob):
+    if name.startswith("C15/WRAP/"):
+        return "/C11/" in name or name.endswith("no-internal-error")
     return name.startswith("C11/") or name.startswith("C12/MEMO") or "/outcome/" in name or ob.get("kind") in ("frame", "bounded-bookkeeping") or name.endswith("no-internal-error")
 
 
@@ -543,8 +548,13 @@ def unit_canonical():
                     try:
                         c = C.Canonical(data, format_in=FrontEnd, tpm_type=T, path=path, command_code=cc, lazy=lazy, abort_on_error=abort)
                         n_at_construction = len(calls)
-                        ev1 = list(c.events)
-                        o1 = c.object
+                        if cc is None:
+                            ev1 = list(c.events)
+                            o1 = c.object
+                        else:
+                            # the other order of access: the object first
+                            o1 = c.object
+                            ev1 = list(c.events)
                         ev2 = list(c.events)
                         o2 = c.object
                     except Exception as e:  # noqa
